@@ -2450,3 +2450,142 @@ func c01r21(rc *core.RC) {
 		rc.Bad(key, store.Pos(), "the program of a struct is stored under %s, the type alone, and every recursive reference to the type is linked to the program stored last: when the type occurs both addressable and not (struct{ B *T; A T } passed by value), the values behind a recursive pointer are written by whichever program was compiled last, with or without the pointer-receiver marshal methods of their members", core.Src(p.Fset, store.Index))
 	}
 }
+
+// ---- C01.R22 an omitempty head looks through the member only where the member lies behind an address ----
+
+// OpStructHeadOmitEmpty decides whether its first member, a pointer, is nil. Reached through the address of the struct
+// (IndirectFlags), the member is the word at that address: ptrToPtr(p). A struct that is one pointer and is passed by
+// value is held directly: p is the member itself, and ptrToPtr(p) is the first word of what it points to. Testing that
+// word omits a non-nil pointer to a struct whose first word happens to be zero (struct{ P *T `omitempty` }{&T{A: 0}}
+// is written {}). Obligation, in the OpStructHeadOmitEmpty clause of every interpreter: a test ptrToPtr(p) == 0 that
+// decides the omission stands together with a test of IndirectFlags.
+func c01r22(rc *core.RC) {
+	p := rc.P
+	t := loadOpTable(rc)
+	if t == nil {
+		return
+	}
+	n := 0
+	for _, vm := range core.VMPkgs {
+		cl, _ := opClauses(rc, vm, t)
+		if cl == nil {
+			continue
+		}
+		info := p.Pkg(vm).TypesInfo
+		for label, cc := range cl {
+			if !strings.Contains(","+label+",", ",OpStructHeadOmitEmpty,") {
+				continue
+			}
+			ast.Inspect(cc, func(m ast.Node) bool {
+				ifs, ok := m.(*ast.IfStmt)
+				if !ok {
+					return true
+				}
+				for _, d := range disjuncts(ifs.Cond) {
+					mentionsDeref, mentionsIndirect := false, false
+					ast.Inspect(d, func(q ast.Node) bool {
+						switch x := q.(type) {
+						case *ast.CallExpr:
+							if strings.HasSuffix(core.CalleeName(info, x), ".ptrToPtr") {
+								mentionsDeref = true
+							}
+						case *ast.SelectorExpr:
+							if x.Sel.Name == "IndirectFlags" {
+								mentionsIndirect = true
+							}
+						}
+						return true
+					})
+					if !mentionsDeref {
+						continue
+					}
+					n++
+					key := fmt.Sprintf("%s.Run/case OpStructHeadOmitEmpty/member-read-through-an-address-only", vm)
+					if mentionsIndirect {
+						rc.OK(key, d.Pos(), "the member is read through p only where p is the address of the struct")
+					} else {
+						rc.Bad(key, d.Pos(), "%s takes the word p points to for the member also when the struct is held directly (one pointer, passed by value): p is the member then, and a non-nil pointer to a struct whose first word is zero is omitted", core.Src(p.Fset, d))
+					}
+				}
+				return true
+			})
+		}
+	}
+	if n < 4 {
+		rc.Unknown("encoder-vms/OpStructHeadOmitEmpty", token.NoPos, "found %d emptiness tests through ptrToPtr in the OpStructHeadOmitEmpty clauses, fewer than the 4 confirmed by hand", n)
+	}
+}
+
+// ---- C01.R23 a nil value of a kind that has no encoding is an error, not null ----
+
+// OpInterface writes null for a dynamic value whose data word is nil. encoding/json does so for nil pointers, maps
+// and slices; for a nil channel, func or unsafe.Pointer it reports the unsupported type, as it does for a non-nil
+// one. The clause compiles the dynamic type only behind the null exit, so the exit must leave these kinds to the
+// compilation (which reports them). Obligation, in the OpInterface clause of every interpreter: the exit that
+// writes null for a nil data word is closed for reflect.Chan and reflect.Func.
+func c01r23(rc *core.RC) {
+	p := rc.P
+	t := loadOpTable(rc)
+	if t == nil {
+		return
+	}
+	n := 0
+	for _, vm := range core.VMPkgs {
+		cl, _ := opClauses(rc, vm, t)
+		if cl == nil {
+			continue
+		}
+		info := p.Pkg(vm).TypesInfo
+		for label, cc := range cl {
+			if !strings.Contains(","+label+",", ",OpInterface,") {
+				continue
+			}
+			// if ifacePtr == nil { … appendNullComma … }
+			ast.Inspect(cc, func(m ast.Node) bool {
+				ifs, ok := m.(*ast.IfStmt)
+				if !ok {
+					return true
+				}
+				be, isB := core.Unparen(ifs.Cond).(*ast.BinaryExpr)
+				if !isB || be.Op != token.EQL {
+					return true
+				}
+				if tv, has := info.Types[be.Y]; !has || !tv.IsNil() {
+					return true
+				}
+				if o := core.ObjOf(info, be.X); o == nil || o.Type().String() != "unsafe.Pointer" {
+					return true
+				}
+				writesNull := false
+				kinds := map[string]bool{}
+				ast.Inspect(ifs.Body, func(q ast.Node) bool {
+					switch x := q.(type) {
+					case *ast.CallExpr:
+						if strings.HasSuffix(core.CalleeName(info, x), ".appendNullComma") {
+							writesNull = true
+						}
+					case *ast.SelectorExpr:
+						if id, isID := x.X.(*ast.Ident); isID && id.Name == "reflect" {
+							kinds[x.Sel.Name] = true
+						}
+					}
+					return true
+				})
+				if !writesNull {
+					return true
+				}
+				n++
+				key := fmt.Sprintf("%s.Run/case OpInterface/nil-of-a-kind-without-encoding-is-no-null", vm)
+				if kinds["Chan"] && kinds["Func"] {
+					rc.OK(key, ifs.Pos(), "the null exit is closed for reflect.Chan and reflect.Func: the compilation of the type reports them")
+				} else {
+					rc.Bad(key, ifs.Pos(), "a nil data word is written as null whatever the dynamic type is: []interface{}{(chan int)(nil)} and a nil func succeed with null where encoding/json returns an UnsupportedTypeError")
+				}
+				return false
+			})
+		}
+	}
+	if n < 4 {
+		rc.Unknown("encoder-vms/OpInterface-null-exit", token.NoPos, "found %d null exits for a nil data word in the OpInterface clauses, fewer than the 4 confirmed by hand", n)
+	}
+}
